@@ -109,10 +109,22 @@ TExport == /\ IsEvent("export_xml")
            /\ UNCHANGED <<slots, topos>>
            /\ UNCHANGED docs
 
+\* C12, equivalence under everything the API can do next: the same call (same name, same argument text) made on two topologies that
+\* were observably equal - a copy and its original - returns the same answers and leaves the second one exactly as it left the first one.
+\* (Userdata is left out of "observably equal": the recorder tags new objects after it has logged them.)
+NoUd(t) == IF t.n = 0 THEN t ELSE [t EXCEPT !.objs = [i \in DOMAIN t.objs |-> [t.objs[i] EXCEPT !.ud = 0]]]
+Results(e) == [x \in DOMAIN e \ {"slot", "topos"} |-> e[x]]
+TwinOK == (/\ l > 2 /\ Len(E.topos) = 2
+           /\ "slot" \in DOMAIN T[l - 1] /\ T[l - 1].e = E.e /\ T[l - 1].slot # E.slot /\ T[l - 1].args = E.args
+           /\ "topos" \in DOMAIN T[l - 2] /\ Len(T[l - 2].topos) = 2 /\ T[l - 2].topos[1].n > 0
+           /\ NoUd(T[l - 2].topos[1]) = NoUd(T[l - 2].topos[2]))
+          => (Results(E) = Results(T[l - 1]) /\ E.topos[S] = T[l - 1].topos[T[l - 1].slot + 1])
+
 \* modifying calls (TopoOps.tla): relation between the projection before and after, then adopt the logged one
 TModify == /\ l <= Len(T) /\ T[l].e \in ModifyingEvents /\ l' = l + 1
            /\ slots[S].st = "loaded"
            /\ ModifyRel(E, topos[S], E.topos[S], slots[S])
+           /\ TwinOK
            /\ OthersUnchanged(S)
            /\ topos' = [topos EXCEPT ![S] = Tagged(E.topos[S])]
            /\ slots' = [slots EXCEPT ![S].pristine = FALSE]
